@@ -48,7 +48,7 @@ def user_token(script, m):
         return "raise:" + R.EXC[script["exc"]][1]
     if mode == "wrong": return "ret:wrong:type"
     if mode == "missing": return "ret:missing:other"
-    return None  # ok: needs the observed output
+    return None  # ok / partial: needs what the real encoding did
 
 
 def srv_line(si):
@@ -74,6 +74,7 @@ def cases_for_server(si, idx, rng, tier, minor, all_codes):
     quick = tier == "quick"
     S = session_settings(minor)
     cases = []
+    tails = []
     ids = [m["id"] for m in si["methods"]]
     def script(mode, **kw):
         sc = {"mode": mode, "vseed": rng.randrange(1 << 30)}
@@ -97,6 +98,12 @@ def cases_for_server(si, idx, rng, tier, minor, all_codes):
         cases.append(mk_case(si, idx, m["id"], body, script("wrong"), "wrong-type:" + m["resp"], "ok", rng))
         if m["resp"] == "m":
             cases.append(mk_case(si, idx, m["id"], body, script("missing"), "missing-field", "ok", rng))
+        # failure at every point of the response encoding, each followed (in `tails`) by successful calls
+        if m["resp"] in ("m", "s"):
+            for k in (range(len(m["fields"])) if m["resp"] == "m" else [0]):
+                pc = mk_case(si, idx, m["id"], body, script("partial", k=k), "partial:" + m["resp"], "ok", rng)
+                cases.append(pc)
+                tails.append([pc, mk_case(si, idx, m["id"], body, script("ok"), "ok-after-failure", "ok", rng)])
         excs = list(R.MAPPED) + (R.SUBCLASSED + R.UNMAPPED if not quick else rng.sample(R.SUBCLASSED, 2) + rng.sample(R.UNMAPPED, 3))
         for name in excs:
             cases.append(mk_case(si, idx, m["id"], body, script("raise", exc=name), "raise:" + R.EXC[name][1], "ok", rng))
@@ -141,6 +148,13 @@ def cases_for_server(si, idx, rng, tier, minor, all_codes):
         if u not in ids:
             cases.append(mk_case(si, idx, u, rng.randbytes(rng.randint(0, 12)), script("ok"), "unknown-method", "ok", rng))
     rng.shuffle(cases)
+    # structured part of the sequence: failure, then the same method succeeding, then some other success / failure
+    oks = [c for c in cases if c["kind"] == "ok"]
+    fails = [c for c in cases if c["kind"] in ("truncated", "raise:other", "raise:type", "raise:rmc", "wrong-type:s", "wrong-type:m", "missing-field", "stub")]
+    for t in tails:
+        cases += t
+        if oks: cases.append(dict(rng.choice(oks), kind="ok-after-failure"))
+        if fails and rng.random() < 0.5: cases.append(rng.choice(fails))
     return cases
 
 
@@ -173,8 +187,7 @@ def _worker(job):
     kind, srvinfos, seed, tier, minor, all_codes, extra = job
     rng = random.Random(seed)
     if kind == "server":
-        cases = cases_for_server(srvinfos[0], 0, rng, tier, minor, all_codes) + unknown_protocol_cases(srvinfos, rng, 2)
-        rng.shuffle(cases)
+        cases = unknown_protocol_cases(srvinfos, rng, 2) + cases_for_server(srvinfos[0], 0, rng, tier, minor, all_codes)
         jobs = [(srvinfos, cases, minor)]
     elif kind == "lethal":
         cases = lethal_cases(srvinfos[0], 0, rng)
@@ -188,7 +201,25 @@ def _worker(job):
         cases = [rng.choice(pool) for _ in range(extra)]
         jobs = [(srvinfos, cases, minor)]
     res = R.run_sessions(jobs)
-    return [(j[0], j[1], r, j[2]) for j, r in zip(jobs, res)]
+    out = []
+    for j, r in zip(jobs, res):
+        # every answered request once more, alone on a fresh connection: the reference for "unaffected by earlier requests"
+        fresh = {}
+        if kind != "lethal":
+            sel = [i for i, (c, x) in enumerate(zip(j[1], r)) if not x.get("skipped") and fresh_wanted(c, x, rng)]
+            fr = R.run_fresh(j[0], [j[1][i] for i in sel], j[2])
+            fresh = dict(zip(sel, fr))
+        out.append((j[0], j[1], r, j[2], fresh))
+    return out
+
+
+def fresh_wanted(case, res, rng):
+    """all successes and everything around a failure-in-the-middle; a sample of the rest"""
+    if res["sent"] and len(res["sent"]) == 1:
+        a = parse_answer(bytes.fromhex(res["sent"][0]))
+        if a is None or a["ok"]: return True
+    if case["kind"].startswith(("partial", "ok", "random-body", "wrong-type")): return True
+    return rng.random() < 0.1
 
 
 # ------------------------------------------------------------------ independent reading of the answers
@@ -242,8 +273,17 @@ def expectation(case, si, res):
         if m["resp"] == "n": return answer(("ok", b""))
         if m["resp"] == "o": return answer(("err", PYCODE["type"]))
         return answer(("err", PYCODE["other"]))
-    # ok: the handler's output
     if res["value_error"]: return ("skip", "no value")
+    if mode == "partial":
+        # a late value of the result has the wrong type: which exception its encoder raises depends on the type
+        # (struct.error, TypeError, AttributeError; `bool` accepts anything) -> the class is observed; the body of a
+        # success is judged against a fresh connection (history_check)
+        if m["resp"] == "n": return answer(("ok", b""))
+        o = res["observed"] or ""
+        if o in PYCODE: return answer(("err", PYCODE[o]))
+        if o.startswith("ret:"): return answer(("ok", bytes.fromhex(o[4:]) if o[4:] != "-" else b""))
+        return ("skip", "partial result did %r" % o)
+    # ok: the handler's output
     o = res["observed"] or ""
     if not o.startswith("ret:"): return ("skip", "scripted success did not return: %r" % o)
     return answer(("ok", bytes.fromhex(o[4:]) if o[4:] != "-" else b""))
@@ -276,6 +316,30 @@ def judge_case(case, si, res):
     if a["ok"]: return ("wrong-outcome", "%s: expected error %#x, got a success response" % (who, exp[1]))
     if a["code"] != exp[1]: return ("wrong-code", "%s: expected error code %#x, got %#x" % (who, exp[1], a["code"]))
     return None
+
+
+def shrink_history(srvinfos, seq, minor, fresh_last):
+    """smallest sub-sequence (ending in the same request) that still makes the last answer differ from the fresh one"""
+    def differs(sub):
+        r = R.run_sessions([(srvinfos, sub, minor)])[0][-1]
+        return not r.get("skipped") and (r["sent"], r["loop"]) != (fresh_last["sent"], fresh_last["loop"])
+    last = seq[-1]
+    # one predecessor is usually enough: try the nearest first
+    for c in reversed(seq[-400:-1]):
+        if differs([c, last]): return [c, last]
+    # otherwise delta-debug the prefix
+    prefix = seq[:-1]
+    n = 2
+    while len(prefix) >= 2 and n <= len(prefix):
+        size = max(1, len(prefix) // n)
+        for i in range(0, len(prefix), size):
+            cand = prefix[:i] + prefix[i + size:]
+            if cand and differs(cand + [last]):
+                prefix, n = cand, max(n - 1, 2); break
+        else:
+            if size == 1: break
+            n = min(n * 2, len(prefix))
+    return prefix + [last]
 
 
 # ------------------------------------------------------------------ run
@@ -342,43 +406,50 @@ def run(ctx):
         parts = pool.map(_worker, jobs, chunksize=1)
     sessions = [x for p in parts for x in p]
 
-    # model lines
+    # model lines: every connection's real request sequence, in order, through the model's `serve` (sbegin / sreq)
     lines, index = [], []
-    for sid, (srvinfos, cases, results, minor) in enumerate(sessions):
+    for sid, (srvinfos, cases, results, minor, fresh) in enumerate(sessions):
         lines.append("clear"); index.append(None)
         for si in srvinfos:
             lines.append(srv_line(si)); index.append(None)
+        lines.append("sbegin"); index.append(None)
         for cid, (case, res) in enumerate(zip(cases, results)):
-            if res.get("skipped"): continue
             si = srvinfos[case["srv"]] if case["srv"] is not None else None
             m = next((x for x in si["methods"] if x["id"] == case["method"]), None) if si else None
             ut = user_token(case["script"], m)
             if ut is None:
-                o = res["observed"] if (res["observed"] or "").startswith("ret:") else "ret:-"
+                o = res.get("observed") or "ret:-"
+                if case["script"]["mode"] == "ok" and not o.startswith("ret:"): o = "ret:-"
                 ut = "ret:good:" + o
             ex = case["extract"]
             if ex == "observed":
-                ex = "ok" if (res["called"] or not (m and m["supported"])) else (res["observed"] or "ok")
-            lines.append("full %s %s %s" % (case["datagram"], ex, ut)); index.append((sid, cid))
+                ex = "ok" if (res.get("called") or not (m and m["supported"])) else (res.get("observed") or "ok")
+            lines.append("sreq %s %s %s" % (case["datagram"], ex, ut)); index.append((sid, cid))
     outs = ctx.driver().batch(lines)
     n_diff, first = 0, None
-    n_cases = 0
+    n_cases = n_fresh = n_after_fail = 0
     for line, o, ix in zip(lines, outs, index):
         if ix is None:
             if o != "ok": raise vf.InfraError("driver rejected %r: %s" % (line[:80], o))
             continue
-        srvinfos, cases, results, minor = sessions[ix[0]]
+        srvinfos, cases, results, minor, fresh = sessions[ix[0]]
         case, res = cases[ix[1]], results[ix[1]]
         si = srvinfos[case["srv"]] if case["srv"] is not None else None
+        if res.get("skipped"):
+            # the real loop had ended: the model's `serve` must have ended too
+            if o != "dead":
+                n_diff += 1
+                if first is None: first = (case, res, o, "skipped (loop ended)", minor, [s["class"] for s in srvinfos])
+            continue
         n_cases += 1
         hres, _, reaction = o.partition(" => ")
         real = ("propagate" if res["loop"] != "alive" else "silent" if not res["sent"] else
                 "send " + res["sent"][0] if len(res["sent"]) == 1 else "multi %d" % len(res["sent"]))
         real_h = res["observed"] if res["observed"] is not None else "nosrv"
-        if case["script"]["mode"] == "ok" and res["value_error"]:
+        if case["script"]["mode"] in ("ok", "partial") and res["value_error"]:
             continue
-        tag = case["kind"] + "=>" + ("send-ok" if real.startswith("send") and parse_answer(bytes.fromhex(res["sent"][0])) and parse_answer(bytes.fromhex(res["sent"][0]))["ok"]
-                                     else "send-err" if real.startswith("send") else real.split(" ")[0])
+        ans = parse_answer(bytes.fromhex(res["sent"][0])) if real.startswith("send") else None
+        tag = case["kind"] + "=>" + ("send-ok" if ans and ans["ok"] else "send-err" if real.startswith("send") else real.split(" ")[0])
         ctx.case(key=(case["module"], case["class"], case["method"], case["kind"], case["body"][:40], repr(sorted(case["script"].items()))),
                  nontrivial=True, tag=tag,
                  sample={"case": {k: v for k, v in case.items() if k != "datagram"}, "model": o[:160], "real": (real_h + " => " + real)[:160]} if n_cases % 7919 == 0 else None)
@@ -387,9 +458,25 @@ def run(ctx):
             ctx.violation("c11:%s:%s" % (bad[0], case["kind"].split(":")[0]), "RMC server: " + bad[1],
                           {"case": case, "minor_version": minor, "registered": ["%s.%s" % (s["module"], s["class"]) for s in srvinfos],
                            "real": res, "model": o, "how": "harness/corr_C11.py replay(): one session with the registered classes, this datagram and script"})
+        # independence of earlier requests: the same request alone on a fresh connection must be answered identically
+        if ix[1] in fresh:
+            n_fresh += 1
+            if case["kind"] == "ok-after-failure": n_after_fail += 1
+            fr = fresh[ix[1]]
+            if (fr["sent"], fr["loop"]) != (res["sent"], res["loop"]) and not ctx.violations:
+                seq = shrink_history(srvinfos, cases[:ix[1] + 1], minor, fr)
+                who = "%s.%s method %d (%s)" % (case["module"], case["class"], case["method"], case["kind"])
+                ctx.violation("c11:history-dependence:%s" % case["kind"].split(":")[0],
+                              "RMC server: %s is answered %s after %d earlier request(s) on the same connection, but %s on a fresh connection "
+                              "(minimised sequence: %s)" % (who, res["sent"] or res["loop"], len(seq) - 1, fr["sent"] or fr["loop"],
+                                                            " ; ".join("%s.m%d[%s]" % (c["class"], c["method"], c["kind"]) for c in seq)),
+                              {"sequence": seq, "case": case, "minor_version": minor, "registered": ["%s.%s" % (s["module"], s["class"]) for s in srvinfos],
+                               "in_sequence": res, "fresh": fr, "how": "harness/corr_C11.py replay(): the sequence on one connection vs its last request on a fresh one"})
         if hres != real_h or reaction != real:
             n_diff += 1
             if first is None: first = (case, res, o, real_h + " => " + real, minor, [s["class"] for s in srvinfos])
+    ctx.extra["requests_compared_with_fresh_connection"] = n_fresh
+    ctx.extra["successes_right_after_a_mid_encoding_failure"] = n_after_fail
     ctx.traces_validated = len(sessions)
     ctx.programs = len(servers)
     ctx.extra["sessions"] = len(sessions)
@@ -420,6 +507,15 @@ def replay(ctx, path):
     servers, _ = T.extract_all(vf.REPO)
     lookup = {"%s.%s" % (s["module"], s["class"]): s for s in servers}
     regs = [lookup[n] for n in r.get("registered", [])]
+    if "sequence" in r:
+        seq = r["sequence"]
+        a = R.run_sessions([(regs, seq, r.get("minor_version", 0))])[0]
+        b = R.run_sessions([(regs, [seq[-1]], r.get("minor_version", 0))])[0][0]
+        for c, x in zip(seq, a): print("%s.m%d[%s] -> %s" % (c["class"], c["method"], c["kind"], x.get("sent") or x.get("loop")))
+        print("fresh connection, last request alone ->", b["sent"] or b["loop"])
+        bad = (a[-1].get("sent"), a[-1].get("loop")) != (b["sent"], b["loop"])
+        if bad: print("VIOLATION history-dependence")
+        return 1 if bad else 0
     res = R.run_sessions([(regs, [case], r.get("minor_version", 0))])[0][0]
     si = regs[case["srv"]] if case["srv"] is not None else None
     print(res)
